@@ -35,8 +35,12 @@ Remove(i) == /\ i \in Ids
              /\ live' = Restrict(live, Ids \ {i})
              /\ UNCHANGED nextId
              /\ obs' = [op |-> "rem", id |-> i, key |-> live[i], len |-> Cardinality(Ids) - 1]
+Clear == /\ live' = << >>
+         /\ UNCHANGED nextId
+         /\ obs' = [op |-> "clear", len |-> 0]
 Next == /\ nops < MaxOps /\ nops' = nops + 1
         /\ \/ \E k \in Keys : Push(k)
+           \/ Clear
            \/ \E i \in Ids : Pop(i) \/ Peek(i) \/ Remove(i)
            \/ \E i \in Ids, k \in Keys : DecreaseKey(i, k)
 Spec == Init /\ [][Next]_vars
